@@ -1,5 +1,6 @@
 import Driver.L0
 import Driver.L1
+import Driver.L2
 open Clap.Driver
 
 def dispatch (line : String) : String :=
@@ -10,6 +11,9 @@ def dispatch (line : String) : String :=
     | some r => r
     | none =>
     match handleL1 cmd args with
+    | some r => r
+    | none =>
+    match handleL2 cmd args with
     | some r => r
     | none => "bad-op"
 
